@@ -71,7 +71,6 @@ o.append(bytes_def("s_t3_info_request_client", strv(find(C, "encryptOriginTokenR
 o.append(bytes_def("s_t3_info_response_client", strv(find(C, "encryptOriginTokenRequest", "str", "[]byte"), 1)))
 o.append(bytes_def("s_t3_info_request_issuer", strv(find(I, "decryptOriginTokenRequest", "str", "[]byte"), 0)))
 o.append(bytes_def("s_t3_info_response_issuer", strv(find(I, "decryptOriginTokenRequest", "str", "[]byte"), 1)))
-o.append(nlist_def("s_t3_pad", find(C, "padOriginName", "int", "N"), 3))
 o.append(nlist_def("s_t3_request_fields", find("tokens/type3/token_request.go", "RateLimitedTokenRequest.Unmarshal", "int", "s.ReadBytes"), 3))
 for t, f in (("1", "tokens/type1"), ("2", "tokens/type2"), ("3", "tokens/type3"), ("5", "tokens/type5")):
     o.append(n_def("s_type%s" % t, one(find(f + "/token_request.go", "-", "int", "uint16"))))
@@ -86,8 +85,6 @@ for nm, var in (("s_oid_pss", "oidPublicKeyRSAPSS"), ("s_oid_sha384", "oidSHA384
     o.append(nlist_def(nm, v.split(".") if v else []))
 o.append(n_def("s_pss_salt", one(find(U, "MarshalTokenKeyPSSOID", "int", "b.AddASN1Int64"))))
 Q = "quicwire/wire.go"
-o.append(nlist_def("s_varint_thresholds", find(Q, "AppendVarint", "int", "case"), 4))
-o.append(nlist_def("s_varint_size_thresholds", find(Q, "SizeVarint", "int", "case"), 4))
 mv = one(find(Q, "-", "expr", "MaxVarint"))
 val = None
 if mv and re.fullmatch(r"[0-9()<+\-*]+", mv):
